@@ -12,7 +12,7 @@
 
    All statements are for every image; there is no bound on shapes, attempts or statuses. *)
 From Coercion.Base Require Import Plan.
-From Coercion.Recover Require Import Fix FixSpec Witness FixCheck FixProofs FixExamples.
+From Coercion.Recover Require Import Fix FixSpec Witness FixCheck FixProofs FixMonitorProofs FixExamples.
 
 (* ------------------------------------------------------------------ fixAction *)
 (* Declarative specification: an action that is not Running is untouched; a Running one whose attempts are all
@@ -179,3 +179,18 @@ Theorem contract_is_satisfiable :
   forall sc : script, run_contract (run_seq_script sc).
 Proof. exact run_seq_script_contract. Qed.
 Print Assumptions contract_is_satisfiable.
+
+(* ------------------------------------------------------------------ the monitors of the correspondence check
+   FixCheck.keep_pln (monitor 1: what is finished in the image is kept, as a boolean over before/after) and
+   FixCheck.spec_act (monitor 2: fix_action_spec as a boolean) are evaluated on what the IMPLEMENTATION did; they
+   hold of everything the model does, so a false monitor is a property violation of the code, never of the model *)
+Theorem monitor_keeps_finished_holds_of_model :
+  forall (run_seq : seq -> seq), run_contract run_seq ->
+  forall p : pln, keep_pln p (fp_pln (fix_plan run_seq p)) = true.
+Proof. exact model_keeps_finished. Qed.
+Print Assumptions monitor_keeps_finished_holds_of_model.
+
+Theorem monitor_action_spec_holds_of_model :
+  forall a : act, spec_act a (fix_action a) = true.
+Proof. exact model_meets_action_spec. Qed.
+Print Assumptions monitor_action_spec_holds_of_model.
